@@ -12,7 +12,7 @@ from petl.compat import pickle, next, text_type
 
 
 import petl.config as config
-from petl.comparison import comparable_itemgetter
+from petl.comparison import comparable_itemgetter, Comparable
 from petl.util.base import Table, asindices
 
 
@@ -532,13 +532,15 @@ def itermergesort(sources, key, header, missing, reverse):
             for hdr, it in zip(src_hdrs, its)]
 
     # now determine key function
-    getkey = None
     if key is not None:
         # convert field selection into field indices
         indices = asindices(outhdr, key)
         # now use field indices to construct a _getkey function
         # N.B., this will probably raise an exception on short rows
         getkey = comparable_itemgetter(*indices)
+    else:
+        # lexical sort, N.B., rows may contain None or values of mixed types
+        getkey = Comparable
 
     # OK, do the merge sort
     for row in _shortlistmergesorted(getkey, reverse, *sits):
